@@ -526,6 +526,7 @@ theorem connectBlocks_fold {s : Source} (hw : wfTree s.tree = true) {top : Hdr} 
     have htm : tip ∈ anc s.tree top := by
       rw [e]; exact List.mem_append_right _ (List.mem_cons_of_mem _ (mem_anc_self _ _))
     unfold connectBlocks
+    simp only [connectNewTip, connectHeight]
     cases hg : s.getBlock req b with
     | error err => simp [applyNotifs, htm, mem_anc_self, hc]
     | ok u =>
